@@ -404,27 +404,29 @@ def cellsStr (sty : Styles) (st : MSt) : List Node → M (Str × MSt)
       | .error e => .error e
       | .ok (u, st2) => .ok (inlineMarkup sty attrs t ++ sCellEnd ++ u, st2)
 
-/-- tableToString: the loop over the table's children -/
-def rowsStr (sty : Styles) (st : MSt) : List Node → M (Str × MSt)
-  | [] => .ok ([], st)
-  | .text _ :: _ => .error .attributeError
-  | .elem q _ kids :: rest =>
+mutual
+/-- tableToString: one child of the table (header rows recurse; other children are skipped) -/
+def rowStr (sty : Styles) (st : MSt) : Node → M (Str × MSt)
+  | .text _ => .error .attributeError
+  | .elem q _ kids =>
     let st0 := { st with last := some q }
-    if q = tHeaderRows then
-      match rowsStr sty { st0 with last := some q } kids with
-      | .error e => .error e
-      | .ok (t, st1) =>
-        match rowsStr sty st1 rest with
-        | .error e => .error e
-        | .ok (u, st2) => .ok (t ++ u, st2)
+    if q = tHeaderRows then rowsStr sty st0 kids
     else if q = tRow then
       match cellsStr sty st0 kids with
       | .error e => .error e
-      | .ok (t, st1) =>
-        match rowsStr sty st1 rest with
-        | .error e => .error e
-        | .ok (u, st2) => .ok (sRowStart ++ t ++ u, st2)
-    else rowsStr sty st0 rest
+      | .ok (t, st1) => .ok (sRowStart ++ t, st1)
+    else .ok ([], st0)
+/-- tableToString: the loop over the table's children -/
+def rowsStr (sty : Styles) (st : MSt) : List Node → M (Str × MSt)
+  | [] => .ok ([], st)
+  | n :: rest =>
+    match rowStr sty st n with
+    | .error e => .error e
+    | .ok (t, st1) =>
+      match rowsStr sty st1 rest with
+      | .error e => .error e
+      | .ok (u, st2) => .ok (t ++ u, st2)
+end
 
 /-- the loop of toString over the children of office:text; returns the buffer entries -/
 def topStr (sty : Styles) (st : MSt) : List Node → M (List Str × MSt)
